@@ -317,22 +317,124 @@ def pouIndexP (norm : String → String) (r : PouNames) : Prog PouMap PouKey Nat
   (rowsOwnersP norm .functionBlocks r.functionBlocks).bind fun e =>
   (rowsOwnersP norm .classes r.classes).bind fun f => .ret (a ++ b ++ c ++ d ++ e ++ f)
 
-/-- Closed form (specification): ids are positions in the concatenation
-programs ++ function blocks ++ functions ++ classes ++ fb methods ++ class methods. -/
-def specRows (r : PouNames) : List PouRow :=
-  let np := r.programs.length
-  let nfb := r.functionBlocks.length
-  let nf := r.functions.length
-  let nc := r.classes.length
-  let a := r.programs.zipIdx.map fun (n, i) => (⟨0, n, some i, none⟩ : PouRow)
-  let b := (r.functionBlocks.map (·.1)).zipIdx.map fun (n, i) => (⟨1, n, some (np + i), none⟩ : PouRow)
-  let c := r.functions.zipIdx.map fun (n, i) => (⟨2, n, some (np + nfb + i), none⟩ : PouRow)
-  let d := (r.classes.map (·.1)).zipIdx.map fun (n, i) => (⟨3, n, some (np + nfb + nf + i), none⟩ : PouRow)
-  let fbMethods := r.functionBlocks.zipIdx.flatMap fun ((_, ms), oi) => ms.map fun m => (m, np + oi)
-  let clMethods := r.classes.zipIdx.flatMap fun ((_, ms), oi) => ms.map fun m => (m, np + nfb + nf + oi)
-  let base := np + nfb + nf + nc
-  let e := (fbMethods ++ clMethods).zipIdx.map fun ((m, o), i) => (⟨4, m, some (base + i), some o⟩ : PouRow)
-  a ++ b ++ c ++ d ++ e
+/-- Allocation order of `PouIdMap::build`: one `(map, key)` pair per `alloc()`, in the order the
+ids are handed out. -/
+def allKeys (norm : String → String) (r : PouNames) : List (PouMap × PouKey) :=
+  r.programs.map (fun n => (PouMap.programs, ("", norm n))) ++
+  r.functionBlocks.map (fun o => (PouMap.functionBlocks, ("", norm o.1))) ++
+  r.functions.map (fun n => (PouMap.functions, ("", norm n))) ++
+  r.classes.map (fun o => (PouMap.classes, ("", norm o.1))) ++
+  r.functionBlocks.flatMap (fun o => o.2.map fun n => (PouMap.methods, (norm o.1, norm n))) ++
+  r.classes.flatMap (fun o => o.2.map fun n => (PouMap.methods, (norm o.1, norm n)))
+
+/-- Generic form of the six insertion loops: keys get consecutive ids. -/
+def insertAllP : List (PouMap × PouKey) → Nat → Prog PouMap PouKey Nat Nat
+  | [], next => .ret next
+  | (m, k) :: ks, next =>
+    let (id, next') := allocId next
+    .insert m k id fun _ => insertAllP ks next'
+
+/-- Specification of the emitted POU index: the emission order of
+`build_pou_index_and_bodies` (programs, function blocks, functions, classes, function-block
+methods, class methods; each in `IndexMap` order) with ids supplied by `id`. -/
+def rowsPure (norm : String → String) (r : PouNames) (id : PouMap → PouKey → Option Nat) : List PouRow :=
+  r.programs.map (fun n => (⟨0, n, id .programs ("", norm n), none⟩ : PouRow)) ++
+  (r.functionBlocks.map (·.1)).map (fun n => (⟨1, n, id .functionBlocks ("", norm n), none⟩ : PouRow)) ++
+  r.functions.map (fun n => (⟨2, n, id .functions ("", norm n), none⟩ : PouRow)) ++
+  (r.classes.map (·.1)).map (fun n => (⟨3, n, id .classes ("", norm n), none⟩ : PouRow)) ++
+  r.functionBlocks.flatMap (fun o => o.2.map fun n =>
+    (⟨4, n, id .methods (norm o.1, norm n), id .functionBlocks ("", norm o.1)⟩ : PouRow)) ++
+  r.classes.flatMap (fun o => o.2.map fun n =>
+    (⟨4, n, id .methods (norm o.1, norm n), id .classes ("", norm o.1)⟩ : PouRow))
+
+/-! ## 3b. `method_table_for` (encoder/pou.rs:423-488): vtable layout -/
+
+/-- `MethodEntry` with the name instead of its string index. -/
+structure MEntry where
+  name : String
+  pouId : Nat
+  slot : Nat
+deriving Repr, DecidableEq
+
+/-- Values of the two kinds of maps involved: `method_tables : HashMap<SmolStr, Vec<MethodEntry>>`
+(map index `none`) and the local `name_to_slot : HashMap<SmolStr, usize>` of the invocation that
+computes the table of `key` (map index `some key`; that invocation runs at most once per key
+because its result is cached in `method_tables`). -/
+inductive VtVal
+  | table (t : List MEntry)
+  | slot (n : Nat)
+deriving Repr, DecidableEq
+
+inductive VtErr | circular | unknownClassLike | methodIdMissing | fuel | corrupt
+deriving Repr, DecidableEq
+
+abbrev VtProg := Prog (Option String) String VtVal
+
+/-- `for entry in &base_table { name_to_slot.insert(normalize_name(name), entry.vtable_slot); table.push(entry) }` -/
+def seedSlotsP (norm : String → String) (key : String) : List MEntry → VtProg Unit
+  | [] => .ret ()
+  | e :: es => .insert (some key) (norm e.name) (.slot e.slot) fun _ => seedSlotsP norm key es
+
+/-- `table[slot] = entry` -/
+def setAt (t : List MEntry) (i : Nat) (e : MEntry) : List MEntry := t.set i e
+
+/-- The `for method in &methods` loop. -/
+def ownMethodsP (norm : String → String) (methodId : String → String → Option Nat) (key owner : String) :
+    List String → List MEntry → VtProg (Except VtErr (List MEntry))
+  | [], table => .ret (.ok table)
+  | name :: rest, table =>
+    match methodId owner name with
+    | none => .ret (.error .methodIdMissing)
+    | some pouId =>
+      .get (some key) (norm name) fun
+        | some (.slot slot) =>
+          ownMethodsP norm methodId key owner rest (setAt table slot ⟨name, pouId, slot⟩)
+        | some (.table _) => .ret (.error .corrupt)
+        | none =>
+          let slot := table.length
+          .insert (some key) (norm name) (.slot slot) fun _ =>
+            ownMethodsP norm methodId key owner rest (table ++ [⟨name, pouId, slot⟩])
+
+/-- `method_table_for(owner)`.  `classLike key` is `class_like_def` (function blocks first, then
+classes; an `IndexMap` lookup): base name and declared method names.  `stack` is `method_stack`.
+`fuel` bounds the recursion over the inheritance chain (the stack check ends it after at most
+one visit per definition). -/
+def methodTableForP (norm : String → String)
+    (classLike : String → Option (Option String × List String))
+    (methodId : String → String → Option Nat) :
+    Nat → List String → String → VtProg (Except VtErr (List MEntry))
+  | 0, _, _ => .ret (.error .fuel)
+  | fuel + 1, stack, owner =>
+    let key := norm owner
+    .get none key fun
+      | some (.table t) => .ret (.ok t)
+      | some (.slot _) => .ret (.error .corrupt)
+      | none =>
+        if stack.contains key then .ret (.error .circular) else
+        match classLike key with
+        | none => .ret (.error .unknownClassLike)
+        | some (base, methods) =>
+          let baseP : VtProg (Except VtErr (List MEntry)) :=
+            match base with
+            | none => .ret (.ok [])
+            | some b => methodTableForP norm classLike methodId fuel (stack ++ [key]) b
+          baseP.bind fun
+            | .error e => .ret (.error e)
+            | .ok baseTable =>
+              (seedSlotsP norm key baseTable).bind fun _ =>
+              (ownMethodsP norm methodId key owner methods baseTable).bind fun
+                | .error e => .ret (.error e)
+                | .ok table => .insert none key (.table table) fun _ => .ret (.ok table)
+
+/-- Tables of a sequence of owners computed by one encoder (shared `method_tables` cache). -/
+def methodTablesP (norm : String → String)
+    (classLike : String → Option (Option String × List String))
+    (methodId : String → String → Option Nat) (fuel : Nat) :
+    List String → VtProg (List (Except VtErr (List MEntry)))
+  | [] => .ret []
+  | o :: os =>
+    (methodTableForP norm classLike methodId fuel [] o).bind fun t =>
+    (methodTablesP norm classLike methodId fuel os).bind fun ts => .ret (t :: ts)
 
 /-! ## 4. `alloc_for_temp_pairs` / `unique_temp_name` (encoder/locals.rs:49-80): the `used` HashSet -/
 
@@ -348,9 +450,9 @@ def uniqueTempNameP (norm : String → String) (pfx : String) (idx : Nat) :
       | none => .insert () (norm name) () fun _ => .ret (some name)
       | some _ => uniqueTempNameP norm pfx idx fuel (attempt + 1)
 
-def insertAllP : List String → Prog Unit String Unit Unit
+def insertSetP : List String → Prog Unit String Unit Unit
   | [] => .ret ()
-  | n :: ns => .insert () n () fun _ => insertAllP ns
+  | n :: ns => .insert () n () fun _ => insertSetP ns
 
 def tempPairsLoopP (norm : String → String) (fuel : Nat) :
     Nat → Nat → Prog Unit String Unit (List (Option String × Option String))
@@ -363,7 +465,7 @@ def tempPairsLoopP (norm : String → String) (fuel : Nat) :
 /-- `alloc_for_temp_pairs(existing, count)`. -/
 def allocForTempPairsP (norm : String → String) (existing : List String) (count : Nat) :
     Prog Unit String Unit (List (Option String × Option String)) :=
-  (insertAllP (existing.map norm)).bind fun _ =>
+  (insertSetP (existing.map norm)).bind fun _ =>
     tempPairsLoopP norm (existing.length + 2 * count + 2) count 0
 
 /-! ## 5. Classification of the operations found on hash-typed bindings -/
